@@ -10,4 +10,4 @@ if ! git -C "$WT" apply "$PATCH"; then echo "PATCH DOES NOT APPLY"; exit 2; fi
 cd /verif && VERIF_REPO="$WT" ./check "$ID" "$@" 2>&1 | tail -${TAIL:-15}
 echo "exit=${PIPESTATUS[0]}"
 # restore facts for the real tree
-(cd /verif && VERIF_ROOT=/verif ./extract/extract "$ID" /repo >/dev/null 2>&1)
+lid=$(echo "$ID" | tr A-Z a-z); (cd /verif/extract && go build -o /tmp/extract_$$ main.go ${lid}*.go && VERIF_ROOT=/verif /tmp/extract_$$ "$ID" /repo >/dev/null 2>&1; rm -f /tmp/extract_$$)
